@@ -44,9 +44,28 @@ def _close(a, b):
     return abs(a - b) <= TOL * scale
 
 
+import re
+
+_OBSERVED = re.compile(r'^(R\d+\.|A\d+\.)|\.r\.')
+
+
 def geval(e, env, tolerant=True):
-    """env: name -> Fraction | int | bool | str"""
+    """env: name -> Fraction | int | bool | str.  The tolerance applies only to comparisons that involve a value
+    OBSERVED on the real code (placeholders R<j>.*, A<j>.*, <name>.r.*): comparisons among the exact inputs - which
+    select the branch of the reference - are exact, whatever the magnitude of the data."""
     cache = {}
+    depc = {}
+
+    def dep(t):
+        k = t.get_id()
+        if k in depc:
+            return depc[k][1]
+        if z3.is_const(t) and t.decl().kind() == z3.Z3_OP_UNINTERPRETED:
+            r = bool(_OBSERVED.search(t.decl().name()))
+        else:
+            r = any(dep(c) for c in t.children())
+        depc[k] = (t, r)
+        return r
 
     def ev(t):
         k = t.get_id()
@@ -98,12 +117,12 @@ def geval(e, env, tolerant=True):
             nf = _cmp(a, b, 'eq')
             if nf is not None:
                 return nf
-            return _close(a, b) if tolerant else a == b
+            return _close(a, b) if (tolerant and (dep(ch[0]) or dep(ch[1]))) else a == b
         if k == z3.Z3_OP_DISTINCT:
             vals = [ev(c) for c in ch]
             for i in range(len(vals)):
                 for j in range(i + 1, len(vals)):
-                    if (_close(vals[i], vals[j]) if tolerant else vals[i] == vals[j]):
+                    if (_close(vals[i], vals[j]) if (tolerant and (dep(ch[i]) or dep(ch[j]))) else vals[i] == vals[j]):
                         return False
             return True
         if k == z3.Z3_OP_LE:
@@ -111,25 +130,25 @@ def geval(e, env, tolerant=True):
             nf = _cmp(a, b, 'le')
             if nf is not None:
                 return nf
-            return a <= b or (tolerant and _close(a, b))
+            return a <= b or (tolerant and (dep(ch[0]) or dep(ch[1])) and _close(a, b))
         if k == z3.Z3_OP_GE:
             a, b = ev(ch[0]), ev(ch[1])
             nf = _cmp(a, b, 'ge')
             if nf is not None:
                 return nf
-            return a >= b or (tolerant and _close(a, b))
+            return a >= b or (tolerant and (dep(ch[0]) or dep(ch[1])) and _close(a, b))
         if k == z3.Z3_OP_LT:
             a, b = ev(ch[0]), ev(ch[1])
             nf = _cmp(a, b, 'lt')
             if nf is not None:
                 return nf
-            return a < b and not (tolerant and _close(a, b))
+            return a < b and not (tolerant and (dep(ch[0]) or dep(ch[1])) and _close(a, b))
         if k == z3.Z3_OP_GT:
             a, b = ev(ch[0]), ev(ch[1])
             nf = _cmp(a, b, 'gt')
             if nf is not None:
                 return nf
-            return a > b and not (tolerant and _close(a, b))
+            return a > b and not (tolerant and (dep(ch[0]) or dep(ch[1])) and _close(a, b))
         if k in (z3.Z3_OP_ADD, z3.Z3_OP_SUB, z3.Z3_OP_MUL, z3.Z3_OP_DIV, z3.Z3_OP_UMINUS):
             vals = [ev(c) for c in ch]
             if any(isinstance(v, NF) for v in vals):
